@@ -605,6 +605,35 @@ func runC18(c *Ctx) {
 				if cl, ok := n.(*ssa.Call); ok && isCall(cl, "builtin.copy") || isCall2(n, "builtin.min") {
 					break
 				}
+				// size := len(msg); if size > len(buf) { size = len(buf) }: each leaf on its own edge
+				if _, isPhi := n.(*ssa.Phi); isPhi {
+					okAll := true
+					for _, lf := range phiLeavesWithPred(n) {
+						switch {
+						case isLenOf(lf.v, func(v ssa.Value) bool { return sameOrigin(v, ssa.Value(buf)) }):
+						case isLenOf(lf.v, func(v ssa.Value) bool { return v == msg }):
+							fits := false
+							facts := guardsOfBlock(ret.Block())
+							if lf.pred != nil {
+								facts = lf.edgeFacts()
+							}
+							for _, ft := range facts {
+								cm, ok := normCmp(ft.Cond, ft.Val)
+								if ok && cm.Op == token.LEQ && isLenOf(cm.X, func(v ssa.Value) bool { return v == msg }) && isLenOf(cm.Y, func(v ssa.Value) bool { return sameOrigin(v, ssa.Value(buf)) }) {
+									fits = true
+								}
+							}
+							if !fits {
+								okAll = false
+							}
+						default:
+							okAll = false
+						}
+					}
+					if okAll {
+						break
+					}
+				}
 				o.Fail(ret.Pos(), "the byte count returned is neither len(message) nor len(buffer)")
 			}
 		}
